@@ -11,6 +11,9 @@ CASES = {'quick': 9000, 'thorough': 250000}
 PARALLEL = True
 # the typed-key stream (True / 1.0 elements after an equal int) exercises the lru_cache of _join_elements
 TYPED_KEY_STREAM = True
+# URL registrations whose scheme urllib does not treat as relative-capable (s3://...), and sub-paths starting with '/':
+# urljoin drops the registered URL (candidate findings C17-static-external-*); generated only when this is True
+EXTERNAL_ODD_STREAM = False
 
 RULE = ('8 helpers (route/resource/static/current_route x url/path) on generated routes (literals/placeholders/star), '
         'elements, query (str / pair list / mapping; None, sequences, bytes, ints), anchor, scheme/host/port/app_url '
@@ -35,7 +38,8 @@ LEVEL_TEXT = ('Machine-checked, for inputs of any size: elements, query pairs an
 LEVEL_NOTE = ('Trusted: Coq kernel; hand-written model validated by correspondence and shape pins; urllib.parse/webob modelled; '
               'pattern parsing taken from the implementation\'s regexes; Python judge.')
 
-PIN_SPEC = {
+PIN_SPEC = {   # computed from /repo/src
+
     'pyramid/url.py': ['parse_url_overrides', 'URLMethodsMixin._partial_application_url',
                        'URLMethodsMixin._quoted_script_name', 'URLMethodsMixin.route_url', 'URLMethodsMixin.route_path',
                        'URLMethodsMixin.resource_url', 'URLMethodsMixin.resource_path', 'URLMethodsMixin.static_url',
@@ -45,7 +49,7 @@ PIN_SPEC = {
     'pyramid/traversal.py': ['quote_path_segment', '_join_path_tuple', 'ResourceURL', 'resource_path_tuple',
                              '_resource_path_list'],
     'pyramid/urldispatch.py': ['_compile_route', 'Route', 'RoutesMapper.get_route'],
-    'pyramid/config/views.py': ['StaticURLInfo.generate'],
+    'pyramid/config/views.py': ['StaticURLInfo.generate', 'StaticURLInfo.add'],
     'pyramid/util.py': ['is_nonstr_iter', 'bytes_', 'text_'],
 }
 
@@ -274,12 +278,34 @@ def gen_resource_case(rng):
             'elements': gen_elements(rng), 'ov': gen_ov(rng), 'warm': []}
 
 
+EXT_NAMES = ['https://cdn.example.com/assets/', 'http://static.example.org', '//cdn.example.com/s', 'https://cdn.example.com:8443/a/b/',
+             'ftp://files.example.com/pub', '//h/', 'https://cdn.example.com/v1.2/~x']
+SUBS = ['a.css', 'dir/a b.js', 'x%y', '\xe9/\u20ac.png', '', 'a?b#c', 'd/../e', 'q=1&r', 'theme:dark.css', 'v1:bundle/app.js',
+        'http://evil.example/x', 'a/b:c', ':x', 'a;b=c/d;e', 'dir/', './a', 'a/./b', 'a//b', '/abs', '//host/x', '..', 'a/..',
+        'a+b,c', "it's(1)!*$", '%41', '#', '?', 'x@y', 'k=v&w', '\U0001d11e.svg', ' ', 'a\tb', '[x]']
+
+
+def gen_sub(rng):
+    r = rng.random()
+    if r < 0.6:
+        return rng.choice(SUBS)
+    if r < 0.8:
+        return rng.choice(['theme', 'v1', 'http', 'a+b.c', 'x']) + ':' + gen_text(rng, 5, 0.4)
+    return '/'.join(gen_text(rng, 4, 0.5) for _ in range(rng.choice([1, 2, 3])))
+
+
 def gen_static_case(rng):
     regs = []
     for nm in rng.sample(['static', 'my static', 'a/b', 'st\xe9', 'css%'], rng.choice([1, 1, 2])):
         regs.append([nm, rng.choice(['pkg:static', 'pkg:assets/css', 'other:files', 'pkg:st'])])
+    ext = rng.random() < 0.55
+    if ext:
+        names = EXT_NAMES + (['s3://bucket/assets/', 'cdn+x://h/a'] if EXTERNAL_ODD_STREAM else [])
+        regs.insert(rng.choice([0, len(regs)]), [rng.choice(names), rng.choice(['cdn:static', 'pkg:ext', 'pkg:static/v'])])
     spec = rng.choice(regs)[1] if rng.random() < 0.95 else 'nope:dir'
-    sub = rng.choice(['a.css', 'dir/a b.js', 'x%y', '\xe9/\u20ac.png', '', 'a?b#c', 'd/../e', 'q=1&r'])
+    sub = gen_sub(rng)
+    while ext and not EXTERNAL_ODD_STREAM and sub.startswith('/'):
+        sub = gen_sub(rng)
     path = spec + '/' + sub if rng.random() < 0.9 else spec + sub
     kw = []
     if rng.random() < 0.1:
@@ -401,6 +427,14 @@ def targeted(broken, disagreements, rng):
                 out.append(c)
     for _ in range(300):
         out.append(gen_typed_case(rng))
+    # every ASCII character in the first / a later segment of an asset under a URL registration
+    for ch in [chr(i) for i in range(128)] + ['\xe9', '\u20ac']:
+        for sub in ('a' + ch + 'b.css', 'd/' + ch + 'x', ch):
+            c = gen_static_case(rng)
+            c['statics'] = [['https://cdn.example.com/assets/', 'cdn:static']]
+            c['path'] = 'cdn:static/' + sub
+            c['kw'] = []
+            out.append(c)
     return out
 
 
@@ -453,6 +487,21 @@ def _query_ok(q):
     return True
 
 
+_EXT_RE = re.compile(r'^(?:[a-z][a-z0-9+.-]*:)?//[a-z0-9.-]+(?::[0-9]+)?(?:/[A-Za-z0-9._~-]+)*/?$')
+
+
+def _static_name_ok(name):
+    """a view name (no URL syntax at all) or a plain URL scheme://host[:port]/seg/seg[/]"""
+    from urllib.parse import urlparse
+    try:
+        p = urlparse(name)
+    except ValueError:
+        return False
+    if p.netloc or p.scheme:
+        return bool(_EXT_RE.match(name))
+    return not _external(name)
+
+
 def _no_surrogate(s):
     return not any(0xd800 <= ord(c) <= 0xdfff for c in s)
 
@@ -500,8 +549,8 @@ def valid(case):
         if h == 'resource':
             return all(_pval_ok(x) and x[0] in ('s', 'b', 'i') for x in case['names'])
         if h == 'static':
-            return bool(case['statics']) and all(isinstance(a, str) and isinstance(b, str) and a and ':' in b
-                                                 and _no_surrogate(a) for a, b in case['statics']) \
+            return bool(case['statics']) and all(isinstance(a, str) and isinstance(b, str) and a and ':' in b and b[0] != '/'
+                                                 and _no_surrogate(a + b) and _static_name_ok(a) for a, b in case['statics']) \
                 and len({a for a, b in case['statics']}) == len(case['statics']) \
                 and isinstance(case['path'], str) and ':' in case['path'] and _no_surrogate(case['path']) and _kw_ok(case['kw'])
         if h == 'current':
@@ -623,14 +672,18 @@ def _w_routes(rs):
 
 
 def _static_routes(case):
-    """what add_static_view registers: (spec with trailing slash, route name, pattern)"""
+    """what add_static_view registers: (spec with trailing slash, route name, pattern, url)"""
+    from urllib.parse import urlparse
     out = []
     for name, spec in case['statics']:
         if not spec.endswith('/') and not spec.endswith(':'):
             spec = spec + '/'
         if not name.endswith('/'):
             name = name + '/'
-        out.append((spec, '__%s' % name, '%s*subpath' % name))
+        if urlparse(name).netloc:
+            out.append((spec, '', None, name))
+        else:
+            out.append((spec, '__%s' % name, '%s*subpath' % name, None))
     return out
 
 
@@ -650,8 +703,8 @@ def to_wire(case):
                 [[_w_pval(x) for x in w] for w in case['warm']]]
     if h == 'static':
         regs = _static_routes(case)
-        return [0, 2, env, [[rn, _w_pattern(pat)] for _s, rn, pat in regs], [[s, rn] for s, rn, _p in regs],
-                case['path'], ov, _w_kw(case['kw'])]
+        return [0, 2, env, [[rn, _w_pattern(pat)] for _s, rn, pat, u in regs if u is None],
+                [[s, rn, _opt(u)] for s, rn, _p, u in regs], case['path'], ov, _w_kw(case['kw'])]
     return [0, 3, env, _w_routes(case['routes']), _opt(case['cur_route_name']), _opt(case['matched']),
             _w_kw(case['matchdict']), [[_w_pval(k), _w_qval(v)] for k, v in case['get']],
             [_w_pval(x) for x in case['elements']], ov, _w_kw(case['kw']),
@@ -663,7 +716,7 @@ def from_wire(case, raw):
         return {'model': ['MODEL-BAD'], 'spec': None}
     if case['kind'] != 'gen':
         return {'model': raw, 'spec': None}
-    if len(raw) != 4:
+    if len(raw) != 4 or len(raw[3]) != 6:
         return {'model': ['MODEL-BAD', raw], 'spec': None}
     return {'model': raw[:3], 'spec': raw[3]}
 
@@ -883,12 +936,12 @@ def _unq(s):
         return None
 
 
-def _tail_ok(rest, sp, script_len_hint=None):
+def _tail_ok(rest, sp, lead=''):
     """rest = path[?query][#fragment] as produced after the application URL.  -> None or a reason"""
     from urllib.parse import urlsplit, parse_qsl
-    auth, els, query, anchor, script = sp
+    auth, els, query, anchor, script = sp[:5]
     try:
-        s = urlsplit('x://h' + rest)
+        s = urlsplit('x://h' + lead + rest)
     except ValueError:
         return 'unsplittable'
     if s.netloc != 'h':
@@ -944,11 +997,24 @@ def judge_gen(case, obs, spec):
     """-> (ok, reason, tag)"""
     from urllib.parse import urlsplit
     u, p = obs[0], obs[1]
-    if u[0] != 0 or spec is None or len(spec) != 5:
+    if u[0] != 0 or spec is None or len(spec) != 6:
         return None, 'no URL produced', None
-    auth, els, query, anchor, script = spec
+    auth, els, query, anchor, script, ext = spec
     U = u[1]
     ov = case['ov']
+    if ext:
+        # static asset registered under a URL: <that URL> + quoted sub-path (+ query, anchor); overrides do not apply,
+        # and static_path returns the same full URL
+        if ext[0] == '':
+            return None, 'sub-path with empty or dot segments under a URL registration (urljoin normalises)', None
+        if not U.startswith(ext[0]):
+            return False, 'the result does not start with the registered URL %r' % ext[0], 'url'
+        why = _tail_ok(U[len(ext[0]):], spec, lead='/')
+        if why is not None:
+            return False, 'url form: ' + why, 'url'
+        if p != u:
+            return False, 'static_path differs from static_url for a URL registration', 'path'
+        return True, None, None
     if ov['app_url'] is not None:
         if not U.startswith(ov['app_url']):
             return False, '_app_url does not come first', 'url'
@@ -1094,6 +1160,10 @@ def kinds(case, obs):
     out.append('host-' + ('none' if case['env']['http_host'] is None else 'port' if ':' in case['env']['http_host'] else 'bare'))
     if case.get('warm'):
         out.append('warm-cache')
+    if case['helper'] == 'static':
+        regs = _static_routes(case)
+        hit = [r for r in regs if case['path'].startswith(r[0])]
+        out.append('static-' + ('nomatch' if not hit else 'external' if hit[0][3] else 'route'))
     if obs[2] == [1]:
         out.append('unsplittable')
     return out
